@@ -186,6 +186,8 @@ def r12_3(ctx: Ctx) -> RuleResult:
         g = _single_return(fn)
         if g is None:
             raise _shape_error("R12.3", fn)
+        if not isinstance(g, (ast.GeneratorExp, ast.ListComp)):
+            raise AnalysisError(f"R12.3: the view `{name}` is not written as a comprehension over the shared iterator")
         ok = False
         if isinstance(g, (ast.GeneratorExp, ast.ListComp)):
             if len(g.generators) == 1 and not g.generators[0].ifs and path_of(g.generators[0].iter) == "self._it":
@@ -201,20 +203,30 @@ def r12_3(ctx: Ctx) -> RuleResult:
 
 
 def r12_4(ctx: Ctx) -> RuleResult:
-    rr = RuleResult("R12.4", "only limit/tail (and __init__) replace the shared iterator, from the previous one", floor=3)
+    rr = RuleResult("R12.4", "the shared iterator is only ever replaced by something built from it", floor=3)
     q = ctx.repo.require_class("jsonpath.fluent_api.Query")
-    allowed = {"__init__", "limit", "tail"}
     for name, fn in sorted(q.methods.items()):
+        # locals derived from the shared iterator
+        derived = set()
+        for _ in range(3):
+            for a in ast.walk(fn.node):
+                if isinstance(a, ast.Assign) and isinstance(a.targets[0], ast.Name):
+                    txt = ast.unparse(a.value)
+                    if "self._it" in txt or any(d in {x.id for x in ast.walk(a.value) if isinstance(x, ast.Name)} for d in derived):
+                        derived.add(a.targets[0].id)
         for n in ast.walk(fn.node):
             if isinstance(n, (ast.Assign, ast.AugAssign)):
                 targets = n.targets if isinstance(n, ast.Assign) else [n.target]
                 for t in targets:
                     if path_of(t) != "self._it":
                         continue
-                    if name not in allowed:
-                        rr.bad(fn, n, f"`{name}` replaces the shared iterator; only {sorted(allowed)} may",
-                               construct=short(n))
-                    elif name != "__init__" and "self._it" not in ast.unparse(n.value):
+                    from_prev = "self._it" in ast.unparse(n.value) or any(
+                        isinstance(x, ast.Name) and x.id in derived for x in ast.walk(n.value)
+                    )
+                    if name in ("take", "values", "locations", "items", "pointers", "first_one", "one") and path_of(n.value) != "self._it":
+                        rr.bad(fn, n, f"`{name}` replaces the shared iterator: what remains after it must stay "
+                               "available to the original query", construct=short(n))
+                    elif name != "__init__" and not from_prev:
                         rr.bad(fn, n, f"`{name}` replaces the shared iterator with something not built from it",
                                construct=short(n))
                     else:
